@@ -12,6 +12,7 @@ import PsModel.Erat
 import PsModel.Parallel
 import PsModel.Store
 import PsModel.NthPrime
+import PsModel.Config
 
 open Ps
 
@@ -295,6 +296,26 @@ def nthLine (op : String) : String :=
     | _, _ => "bad-op"
   | _ => "bad-op"
 
+
+/-- one line of the `cfg` stream -/
+def cfgLine (op : String) : String :=
+  match (op.splitOn " ").filter (· ≠ "") with
+  | ["gss", a, b, c, d] =>
+    match a.toNat?, b.toNat?, c.toNat?, d.toNat? with
+    | some l1, some l2, some s2, some s3 =>
+      let c : CpuDesc := ⟨l1, l2, s2, s3⟩
+      s!"size={getSieveSize 0 c} l1={getL1CacheSize c}"
+    | _, _, _, _ => "bad-op"
+  | ["ss", x] =>
+    match x.toInt? with
+    | some x => s!"api={setSieveSize x} ps={setSieveSize x}"
+    | none => "bad-op"
+  | ["nt", x, cores] =>
+    match x.toInt?, kv cores with
+    | some x, some cores => s!"api={setNumThreads x cores} ps={setNumThreads x cores}"
+    | _, _ => "bad-op"
+  | _ => "bad-op"
+
 partial def lineLoop (h : IO.FS.Stream) (f : String → String) : IO Unit := do
   let line ← h.getLine
   if line.isEmpty then return ()
@@ -315,6 +336,7 @@ def main (args : List String) : IO UInt32 := do
     | "print" => lineLoop s printLine; return 0
     | "store" => lineLoop s storeLine; return 0
     | "nth" => lineLoop s nthLine; return 0
+    | "cfg" => lineLoop s cfgLine; return 0
     | "bench" =>
       let n := (← IO.FS.readFile file).trimAscii.toString.toNat?.getD 1000
       let t00 ← IO.monoMsNow
